@@ -235,10 +235,13 @@ impl UnixTerminal {
         self.signal_delivery.handle().close();
         self.signal_delivery.pending().for_each(drop);
 
-        // wait for device attributes report or error
+        // wait for device attributes report or error, but not forever: termination signals
+        // are not seen any more and other events may keep coming
+        let deadline = Instant::now() + Duration::from_secs(3);
         loop {
             match self.poll(Some(Duration::from_secs(1))) {
                 Err(_) | Ok(Some(TerminalEvent::DeviceAttrs(_)) | None) => break,
+                _ if Instant::now() >= deadline => break,
                 _ => {}
             }
         }
